@@ -13,6 +13,9 @@ Report ==
        /\ (C07Fix(e) \/ PrintT("VERDICT " \o ToJson([id |-> e.id, p |-> "C07", why |-> "decodes differently after re-encoding"])))
     ELSE IF e.kind = "enc" THEN
        (C01Fix(e) \/ PrintT("VERDICT " \o ToJson([id |-> e.id, p |-> "C01", why |-> C01Why(e)])))
+    ELSE IF e.kind = "probe" THEN
+       (Injective(e) \/ PrintT("VERDICT " \o ToJson([id |-> e.id, p |-> "C06",
+           why |-> "two operand values share one encoding", pairs |-> Colliding(e)])))
     ELSE
        (C01Arch(e) \/ PrintT("VERDICT " \o ToJson([id |-> e.id, p |-> "C01", why |-> "bytes differ from the architecture's encoding"])))
 =============================================================================
